@@ -576,7 +576,8 @@ def main():
     os.makedirs(os.path.join(VERIF, 'evidence'), exist_ok=True)
     json.dump(ev, open(os.path.join(VERIF, 'evidence', prop + '.json'), 'w'), indent=1)
     log('%s %s: %d runs (%d non-trivial, %d distinct), %.0f simulated s, %.1f s wall, faults fired: %s' % (
-        prop, tier, merged['evaluations'], merged['nontrivial'], len(distinct), merged['sim_us'] / 1e6, wall, json.dumps(merged['faults_fired'])))
+        prop, tier, merged['evaluations'], merged['nontrivial'], len(distinct), merged['sim_us'] / 1e6, wall,
+        json.dumps(dict(merged['faults_fired'], **{('file:' + k): v for k, v in merged['file_faults_fired'].items() if v}))))
     for w in warnings:
         log('warning: ' + w)
     return rc
